@@ -443,6 +443,137 @@ fn period_route_session(ctx: &mut Ctx, spdc0: &SPDC, cr: &[CrystalType]) {
   }
 }
 
+/// K case `opt_period_tab` for `(signal, pump, cs)` with the outcome a route produced: the closure `pm` of
+/// optimum_poling_period rebuilt from the public API and recorded through the real optimiser (as in `period_case`)
+fn period_tab_k(ctx: &mut Ctx, cs: &CrystalSetup, signal: &SignalBeam, pump: &PumpBeam, out: &PeriodOut) {
+  let z = dkz(signal, pump, cs, &PeriodicPoling::Off);
+  let len = *(cs.length / M);
+  if z == 0.0 || z.is_nan() {
+    return;
+  }
+  let outs = match out {
+    PeriodOut::Panic => "PANIC".to_string(),
+    PeriodOut::Err => "ERR".to_string(),
+    PeriodOut::Infinite => "OKINF".to_string(),
+    PeriodOut::Ok(pp) => format!("OK {}", fl(*(pp.signed_period() / M))),
+  };
+  let sign: Sign = z.into();
+  let pm = |period: f64| {
+    let pp = PeriodicPoling::On { period: period * M, sign, apodization: Apodization::Off };
+    dkz(signal, pump, cs, &pp).abs()
+  };
+  let g = (TAU / z).abs();
+  // the cost can be NaN (steep idler): the real search then panics, and so does this recording
+  if let Some((_, _, _, log)) = guard(|| run_logged(&pm, (g, g + 1e-6), 1000, f64::MIN_POSITIVE, len, 1e-12)) {
+    if log.len() <= 3200 {
+      ctx.k("opt_period_tab", &format!("{} {} {}", fl(z), fl(len), table(&log)), &outs);
+    }
+  }
+}
+
+/// warm start of the poling routes: the object ALREADY stores (nearly) the optimum poling — the optimum to the last bit,
+/// the optimum written to a configuration (4 decimals of a µm) and read back, converted m → µm → m, or off by a relative
+/// 1e-9 … 1e-1 (either sign of the offset; the stored SIGN right or flipped) — and is optimised again through every
+/// route.  The stored poling is an input the result must not depend on: the statement's clauses on every result,
+/// and the K case `opt_period_tab` on the same state.
+fn period_warm_case(ctx: &mut Ctx, spdc0: &SPDC, cr: &[CrystalType]) {
+  let crystal = ctx.rng.pick(cr).clone();
+  let pm = *ctx.rng.pick(&PMS);
+  let (lp, ls) = gen_wavelengths(&mut ctx.rng, &crystal);
+  let cs = mk_setup(crystal, pm, ctx.rng.range(0.0, std::f64::consts::FRAC_PI_2), ctx.rng.range(0.0, TAU), ctx.rng.range(1e-3, 30e-3), ctx.rng.range(0.0, 100.0), false);
+  let ths = if ctx.rng.coin() { 0.0 } else { ctx.rng.range(0.0, 0.05) };
+  let (signal, pump) = mk_beams(pm, lp, ls, ths, ctx.rng.range(0.0, TAU), 100e-6);
+  let opt = match guard(|| optimum_poling_period(&signal, &pump, &cs)) {
+    Some(Ok(p)) if (*(p / M)).is_finite() => *(p / M),
+    _ => {
+      ctx.count("period-warm/no-optimum");
+      return;
+    }
+  };
+  for _ in 0..3 {
+    let (kind, mag): (String, f64) = match ctx.rng.below(6) {
+      0 => ("own-optimum".into(), opt.abs()),
+      1 => {
+        // through the real conversions: PeriodicPoling → PeriodicPolingConfig (rounded) → PeriodicPoling
+        let cfg: spdcalc::PeriodicPolingConfig = PeriodicPoling::new(opt * M, Apodization::Off).into();
+        match guard(|| cfg.try_as_periodic_poling(&signal, &pump, &cs)) {
+          Some(Ok(PeriodicPoling::On { period, .. })) => ("own-optimum-through-config".into(), *(period / M)),
+          _ => continue,
+        }
+      }
+      2 => ("own-optimum-um-roundtrip".into(), (opt.abs() * 1e6) * 1e-6),
+      3 => {
+        // the stored period's OWN half phase |Δkz|L/2 ≈ |z|·rel·L/2 log-uniform over 1e-5 … 1e-1 (two decades either
+        // side of the statement's threshold)
+        let h = ctx.rng.log_range(1e-5, 1e-1);
+        let d = h * 2.0 / (TAU / opt.abs() * *(cs.length / M)) * if ctx.rng.coin() { 1.0 } else { -1.0 };
+        ("near-threshold".into(), opt.abs() * (1.0 + d))
+      }
+      _ => {
+        let d = ctx.rng.log_range(1e-9, 1e-1) * if ctx.rng.coin() { 1.0 } else { -1.0 };
+        ("offset".into(), opt.abs() * (1.0 + d))
+      }
+    };
+    let flipped = ctx.rng.below(4) == 0;
+    let neg = (opt < 0.0) != flipped;
+    let stored = PeriodicPoling::On { period: mag * M, sign: if neg { Sign::NEGATIVE } else { Sign::POSITIVE }, apodization: gen_apodization(&mut ctx.rng) };
+    let mut spdc = spdc0.clone();
+    spdc.crystal_setup = cs.clone();
+    spdc.signal = signal.clone();
+    spdc.pump = pump.clone();
+    spdc.pp = stored.clone();
+    match IdlerBeam::try_new_optimum(&spdc.signal, &spdc.pump, &spdc.crystal_setup, &spdc.pp) {
+      Ok(i) => spdc.idler = i,
+      Err(_) => continue,
+    }
+    let route = *ctx.rng.pick(&["PeriodicPoling::try_as_optimum", "assign_optimum_periodic_poling", "with_optimum_periodic_poling", "optimum_periodic_poling", "SPDC::try_as_optimum"]);
+    ctx.count(&format!("period-warm/{}/{}", kind, route));
+    let what = |c: &CrystalSetup, sg: &SignalBeam, pu: &PumpBeam| {
+      format!(
+        "route={} warm={} stored_poling={} stored_period={:e} optimum_before={:e} warm_rel_offset={:e} {}",
+        route,
+        kind,
+        stored_name(&stored),
+        mag * if neg { -1.0 } else { 1.0 },
+        opt,
+        mag / opt.abs() - 1.0,
+        setup_detail(c, l_of(pu), l_of(sg), th_of(sg), ph_of(sg))
+      )
+    };
+    if route == "SPDC::try_as_optimum" {
+      // makes the signal collinear and returns a new object: judge the object it returns
+      let s1 = spdc.clone();
+      match guard(move || s1.try_as_optimum()) {
+        Some(Ok(s2)) => {
+          let out = out_of(Some(Ok(s2.pp.clone())));
+          period_tab_k(ctx, &s2.crystal_setup, &s2.signal, &s2.pump, &out);
+          judge_period(ctx, route, &s2.crystal_setup, &s2.signal, &s2.pump, &out, &what(&s2.crystal_setup, &s2.signal, &s2.pump));
+        }
+        Some(Err(_)) => {
+          let mut sg0 = signal.clone();
+          sg0.set_angles(0. * RAD, 0. * RAD);
+          period_tab_k(ctx, &cs, &sg0, &pump, &PeriodOut::Err);
+          judge_period(ctx, route, &cs, &sg0, &pump, &PeriodOut::Err, &what(&cs, &sg0, &pump));
+        }
+        None => ctx.count("period@SPDC::try_as_optimum/outcome/panic"),
+      }
+    } else {
+      let r = match route {
+        "PeriodicPoling::try_as_optimum" => guard(|| stored.clone().try_as_optimum(&signal, &pump, &cs)),
+        "assign_optimum_periodic_poling" => guard(|| {
+          let mut s2 = spdc.clone();
+          s2.assign_optimum_periodic_poling().map(|_| ()).map(|_| s2.pp.clone())
+        }),
+        "with_optimum_periodic_poling" => guard(|| spdc.clone().with_optimum_periodic_poling().map(|s| s.pp)),
+        _ => guard(|| spdc.optimum_periodic_poling()),
+      };
+      let out = out_of(r);
+      period_tab_k(ctx, &cs, &signal, &pump, &out);
+      judge_period(ctx, route, &cs, &signal, &pump, &out, &what(&cs, &signal, &pump));
+    }
+  }
+}
+
 fn theta_case(ctx: &mut Ctx, spdc0: &SPDC, cs0: &CrystalSetup, lp: f64, ls: f64, routes: bool) {
   let (signal, pump) = mk_beams(cs0.pm_type, lp, ls, 0.0, 0.0, 100e-6);
   let what = setup_detail(cs0, lp, ls, 0.0, 0.0);
@@ -497,19 +628,29 @@ fn theta_case(ctx: &mut Ctx, spdc0: &SPDC, cs0: &CrystalSetup, lp: f64, ls: f64,
     Some(x) => x,
   };
   ctx.count("theta/scan/sign-change");
-  let tail = format!(
-    "root_lo_deg={:.3} root_hi_deg={:.3} lp_nm={:.3} ls_nm={:.3} li_nm={:.3} long_nm={:.3} prior_deg={:.4}",
-    ra.to_degrees(),
-    rb.to_degrees(),
-    lp * 1e9,
-    ls * 1e9,
-    ls * lp / (ls - lp) * 1e9,
-    ls.max(ls * lp / (ls - lp)) * 1e9,
-    (*(cs0.theta / RAD)).to_degrees()
-  );
+  let tail_of = |prior: f64| {
+    format!(
+      "root_lo_deg={:.3} root_hi_deg={:.3} lp_nm={:.3} ls_nm={:.3} li_nm={:.3} long_nm={:.3} prior_deg={:.4}",
+      ra.to_degrees(),
+      rb.to_degrees(),
+      lp * 1e9,
+      ls * 1e9,
+      ls * lp / (ls - lp) * 1e9,
+      ls.max(ls * lp / (ls - lp)) * 1e9,
+      prior.to_degrees()
+    )
+  };
+  let tail = tail_of(*(cs0.theta / RAD));
   let step = std::f64::consts::FRAC_PI_2 / ((npts - 1) as f64);
+  // the result from prior angle 0 (history independence: the coded start simplex is fixed, so the prior crystal angle must
+  // not matter)
+  let reference = {
+    let mut c = cs0.clone();
+    c.theta = 0. * RAD;
+    guard(|| *(c.optimum_theta(&signal, &pump) / RAD))
+  };
   // the statement's clause for one route's result
-  let mut judge = |ctx: &mut Ctx, route: &str, r: Option<f64>| match r {
+  let judge_on = |ctx: &mut Ctx, what: &str, tail: &str, route: &str, r: Option<f64>| match r {
     None => ctx.s("C04.theta", false, &format!("theta/{}/panic", route), &format!("{} {}", what, tail)),
     Some(th) => {
       let in_range = (0.0..=std::f64::consts::FRAC_PI_2).contains(&th);
@@ -531,6 +672,9 @@ fn theta_case(ctx: &mut Ctx, spdc0: &SPDC, cs0: &CrystalSetup, lp: f64, ls: f64,
       } else {
         format!("theta/{}/not-phasematched", route)
       };
+      // a failure that the same setup does NOT show from prior angle 0 is caused by the prior state, not by the
+      // search on this setup (the mechanisms of D3/D91/D94 do not depend on the prior angle): own signature
+      let kind = if !ok && reference.map(f64::to_bits) != Some(th.to_bits()) { format!("{}/prior-dependent", kind) } else { kind };
       ctx.count(&format!("theta/route/{}", route));
       ctx.s(
         "C04.theta",
@@ -540,14 +684,10 @@ fn theta_case(ctx: &mut Ctx, spdc0: &SPDC, cs0: &CrystalSetup, lp: f64, ls: f64,
       );
     }
   };
+  let judge = |ctx: &mut Ctx, route: &str, r: Option<f64>| judge_on(ctx, &what, &tail, route, r);
   judge(ctx, "auto", r);
   // history independence: the coded start simplex is fixed, so the prior crystal angle must not matter
-  let reference = {
-    let mut c = cs0.clone();
-    c.theta = 0. * RAD;
-    guard(|| *(c.optimum_theta(&signal, &pump) / RAD))
-  };
-  let mut indep = |ctx: &mut Ctx, route: &str, r: Option<f64>| {
+  let indep_on = |ctx: &mut Ctx, what: &str, tail: &str, route: &str, r: Option<f64>| {
     let same = match (r, reference) {
       (Some(x), Some(y)) => x.to_bits() == y.to_bits(),
       (None, None) => true,
@@ -560,6 +700,7 @@ fn theta_case(ctx: &mut Ctx, spdc0: &SPDC, cs0: &CrystalSetup, lp: f64, ls: f64,
       &format!("{} got_deg={:?} from_prior_0_deg={:?} {}", what, r.map(f64::to_degrees), reference.map(f64::to_degrees), tail),
     );
   };
+  let indep = |ctx: &mut Ctx, route: &str, r: Option<f64>| indep_on(ctx, &what, &tail, route, r);
   indep(ctx, "auto", r);
   if routes {
     // the computed optimum fed back in as the prior crystal angle (to the last bit)
@@ -598,6 +739,138 @@ fn theta_case(ctx: &mut Ctx, spdc0: &SPDC, cs0: &CrystalSetup, lp: f64, ls: f64,
         None => judge(ctx, "try_as_optimum", None),
       }
     }
+  }
+
+  // ---- warm start: the crystal ALREADY sits at / next to the answer (an optimised setup optimised again, an angle typed
+  // in from a data sheet or written by as_config and read back, a scan that re-optimises at every step).  The prior
+  // angle is an input the result must not depend on, so every such state gets the statement's clause on every route
+  // (and bit-for-bit independence of the prior angle), and the direct route a K case on the same state.
+  let root = {
+    // the phase-matching angle itself, by bisection of Δkz on the scan's bracket
+    let (mut a, mut b) = (ra, rb);
+    let fa = at(a);
+    for _ in 0..60 {
+      let m = 0.5 * (a + b);
+      if m <= a || m >= b {
+        break;
+      }
+      let fm = at(m);
+      if (fm < 0.0) == (fa < 0.0) && fm != 0.0 { a = m } else { b = m }
+    }
+    if at(a).abs() <= at(b).abs() { a } else { b }
+  };
+  let slope = ((at(rb) - at(ra)) / (rb - ra)).abs(); // |dΔkz/dθ| at the root, rad/m per rad
+  let own = r.filter(|t| (0.0..=std::f64::consts::FRAC_PI_2).contains(t) && at(*t).abs() * len / 2.0 < 1e-3);
+  let mut priors: Vec<(String, f64, f64)> = Vec::new(); // (kind, prior angle, offset from its centre)
+  // one "special" state per case, in rotation: the routine's own answer to the last bit / written to a configuration
+  // (4 decimals of a degree) and read back through the real conversions / converted rad → deg → rad / typed in with
+  // 1…6 decimals of a degree / the bisected phase-matching angle
+  match (own, ctx.rng.below(5)) {
+    (Some(t), 0) => priors.push(("own-optimum".into(), t, 0.0)),
+    (Some(t), 1) => {
+      let mut c = cs0.clone();
+      c.theta = t * RAD;
+      let cfg: spdcalc::CrystalConfig = c.into();
+      let back: CrystalSetup = cfg.into();
+      let v = *(back.theta / RAD);
+      priors.push(("own-optimum-through-config".into(), v, v - t));
+    }
+    (Some(t), 2) => {
+      let rt = t.to_degrees().to_radians();
+      priors.push(("own-optimum-deg-rad-roundtrip".into(), rt, rt - t));
+    }
+    (Some(t), 3) => {
+      let dec = ctx.rng.between(1, 6) as i32;
+      let typed = ((t.to_degrees() * 10f64.powi(dec)).round() / 10f64.powi(dec)).to_radians();
+      priors.push((format!("own-optimum-typed-{}-decimals", dec), typed, typed - t));
+    }
+    _ => priors.push(("bisected-root".into(), root, 0.0)),
+  }
+  {
+    // x* + d, d log-uniform over 1e-9 … 1e-1 of the search interval, both signs
+    let c = match own {
+      Some(t) if ctx.rng.coin() => t,
+      _ => root,
+    };
+    let d = ctx.rng.log_range(1e-9, 1e-1) * std::f64::consts::FRAC_PI_2 * if ctx.rng.coin() { 1.0 } else { -1.0 };
+    priors.push(("offset".into(), c + d, d));
+  }
+  if slope > 0.0 && slope.is_finite() {
+    for _ in 0..2 {
+      // the prior angle's OWN half phase |Δkz|L/2 log-uniform over 1e-5 … 1e-1: two decades either side of the
+      // statement's threshold (the prior state "almost" satisfies the clause, or satisfies it only just)
+      let h = ctx.rng.log_range(1e-5, 1e-1);
+      let d = h * 2.0 / (len * slope) * if ctx.rng.coin() { 1.0 } else { -1.0 };
+      priors.push(("near-threshold".into(), root + d, d));
+    }
+  }
+  let tab = if log.len() <= 3200 { Some(table(&log)) } else { None };
+  let warm_routes = ["auto", "assign_optimum_theta", "assign_optimum_crystal_theta", "auto", "with_optimum_crystal_theta", "optimum_crystal_theta", "try_as_optimum"];
+  let first_route = ctx.rng.below(warm_routes.len());
+  for (i, (kind, prior, off)) in priors.iter().enumerate() {
+    let mut cw = cs0.clone();
+    cw.theta = *prior * RAD;
+    let whatw = setup_detail(&cw, lp, ls, 0.0, 0.0);
+    let php = at(*prior).abs() * len / 2.0;
+    let tailw = format!("{} warm={} warm_offset_rad={:e} prior_half_phase={:e}", tail_of(*prior), kind, off, php);
+    ctx.count(&format!("theta/warm/{}", kind.split("-typed-").next().unwrap()));
+    ctx.count(&format!("theta/warm/prior-half-phase/1e{}", php.max(1e-12).log10().floor().clamp(-7.0, 3.0)));
+    // one route per state, in rotation
+    let route = warm_routes[(first_route + i) % warm_routes.len()];
+    if route == "auto" {
+      // direct route: S + K (the cost closure does not depend on the prior angle of a collinear signal, so the
+      // recorded table of the base case is the table of this state)
+      let rd = guard(|| *(cw.optimum_theta(&signal, &pump) / RAD));
+      if let Some(t) = &tab {
+        ctx.k("opt_theta_tab", t, &rd.map(fl).unwrap_or("PANIC".into()));
+      }
+      judge_on(ctx, &whatw, &tailw, "auto", rd);
+      indep_on(ctx, &whatw, &tailw, "auto", rd);
+      continue;
+    }
+    let rr: Option<f64> = if route == "assign_optimum_theta" {
+      guard(|| {
+        let mut c = cw.clone();
+        c.assign_optimum_theta(&signal, &pump);
+        *(c.theta / RAD)
+      })
+    } else {
+      let mut spdc = spdc0.clone();
+      spdc.crystal_setup = cw.clone();
+      spdc.signal = signal.clone();
+      spdc.pump = pump.clone();
+      // "auto-calculated without poling": the assign_/with_ routes switch a stored poling off themselves
+      spdc.pp = if (route == "assign_optimum_crystal_theta" || route == "with_optimum_crystal_theta") && ctx.rng.coin() {
+        PeriodicPoling::On { period: ctx.rng.log_range(1e-6, 1e-3) * M, sign: if ctx.rng.coin() { Sign::NEGATIVE } else { Sign::POSITIVE }, apodization: Apodization::Off }
+      } else {
+        PeriodicPoling::Off
+      };
+      match IdlerBeam::try_new_optimum(&spdc.signal, &spdc.pump, &spdc.crystal_setup, &PeriodicPoling::Off) {
+        Err(_) => continue,
+        Ok(idl) => spdc.idler = idl,
+      }
+      match route {
+        "assign_optimum_crystal_theta" => guard(move || {
+          spdc.assign_optimum_crystal_theta();
+          if spdc.pp == PeriodicPoling::Off { *(spdc.crystal_setup.theta / RAD) } else { f64::NAN }
+        }),
+        "with_optimum_crystal_theta" => guard(move || {
+          let s = spdc.with_optimum_crystal_theta();
+          if s.pp == PeriodicPoling::Off { *(s.crystal_setup.theta / RAD) } else { f64::NAN }
+        }),
+        "optimum_crystal_theta" => guard(move || *(spdc.optimum_crystal_theta() / RAD)),
+        _ => match guard(move || spdc.try_as_optimum().map(|s| *(s.crystal_setup.theta / RAD))) {
+          Some(Ok(t)) => Some(t),
+          Some(Err(_)) => {
+            ctx.count("theta/route/try_as_optimum/err");
+            continue;
+          }
+          None => None,
+        },
+      }
+    };
+    judge_on(ctx, &whatw, &tailw, route, rr);
+    indep_on(ctx, &whatw, &tailw, route, rr);
   }
 }
 
@@ -799,6 +1072,13 @@ pub fn run(ctx: &mut Ctx) {
     let nses = if mode == "routes" { ctx.n } else { ctx.n / 15 };
     for _ in 0..nses {
       period_route_session(ctx, &spdc0, &cr);
+    }
+  }
+
+  if mode == "all" || mode == "warm" {
+    let nw = if mode == "warm" { ctx.n } else { ctx.n / 20 };
+    for _ in 0..nw {
+      period_warm_case(ctx, &spdc0, &cr);
     }
   }
 
